@@ -21,10 +21,15 @@ INTERESTING = [0x00, 0x01, 0x02, 0x03, 0x04, 0x05, 0x06, 0x07, 0x30, 0x31,
 
 
 def _pos(r, n, bias_front=True):
+    """Fault position: near the front (headers, lengths), near the back
+    (padding bits, last body byte, tail boundary) or anywhere."""
     if n <= 0:
         return 0
-    if bias_front and r.random() < 0.5:
+    c = r.random()
+    if bias_front and c < 0.4:
         return min(n - 1, int(r.expovariate(0.25)))
+    if bias_front and c < 0.65:
+        return max(0, n - 1 - int(r.expovariate(0.35)))
     return r.randrange(n)
 
 
@@ -327,6 +332,16 @@ class SimEntropy(object):
 
     def consumed(self):
         return b"".join(o for _, o in self.log if o is not None)
+
+
+class SizedSimEntropy(SimEntropy):
+    """Same device, but the callable object also has a length (number of
+    requests logged so far, 0 when fresh - i.e. it is *falsy* until used).
+    A caller-supplied entropy source may be any callable object; the library
+    may only call it."""
+
+    def __len__(self):
+        return len(self.log)
 
 
 # --------------------------------------------------------- call guard ------
